@@ -1,5 +1,5 @@
 (* C08  Trading-day lifecycle and clocks: each phase once, in order, settled once. *)
-From RQ Require Import Model.Num Model.Calendar Model.EventLoop Model.Phases Proofs.CalendarFacts Proofs.EventLoopFacts Gen.ApiPhases.
+From RQ Require Import Model.Num Model.Calendar Model.EventLoop Model.Phases Proofs.CalendarFacts Proofs.EventLoopFacts Proofs.PhasesFacts Gen.ApiPhases.
 From Coq Require Import List String.
 Open Scope Z_scope.
 
@@ -28,6 +28,19 @@ Proof. exact event_split_ok. Qed.
 (* every order-placing API is refused during init, before_trading and after_trading (regenerated phase table) *)
 Theorem C08_order_phases : forallb (fun name => order_api_guarded api_phases name) order_apis = true.
 Proof. exact order_apis_guarded. Qed.
+(* ... also from a handler registered with subscribe_event: the handler of every part (PRE_E, E, POST_E) of a day-phase event runs in
+   that phase whatever is on the phase stack, an event without an entry keeps the enclosing phase (regenerated Strategy._EVENT_PHASE and
+   wrap_user_event_handler), and no order or cash-flow API is admitted in a handler of a before_trading / after_trading event *)
+Theorem C08_handler_phases :
+  (forall e p parts part enclosing, In (e, p) day_phase_events -> lookup e event_split = Some parts -> In part parts ->
+     handler_phase handler_phase_table handler_fallback_enclosing part enclosing = p) /\
+  (forall ev enclosing, lookup ev handler_phase_table = None ->
+     handler_phase handler_phase_table handler_fallback_enclosing ev enclosing = enclosing).
+Proof. exact (handler_phase_sound event_split handler_phase_table handler_fallback_enclosing handler_phases_ok). Qed.
+Theorem C08_handlers_cannot_order_when_closed :
+  forallb (fun name => forallb (fun ev => negb (api_allows api_phases name (handler_phase handler_phase_table handler_fallback_enclosing ev XGlobal)))
+                               closed_phase_events) (order_apis ++ flow_apis) = true.
+Proof. exact handlers_cannot_order_when_closed. Qed.
 
 Example C08_example :
   exec_run (daily_events [20200102; 20200103]) 20200103 =
@@ -44,3 +57,5 @@ Print Assumptions C08_clocks_monotone.
 Print Assumptions C08_minute_bars_increasing.
 Print Assumptions C08_brackets.
 Print Assumptions C08_order_phases.
+Print Assumptions C08_handler_phases.
+Print Assumptions C08_handlers_cannot_order_when_closed.
